@@ -50,7 +50,15 @@ func Execute(f func(), vals [][2]interface{}, params map[string]int) (out Outcom
 	return executeWith(f, &Run{Vals: vals, Params: params})
 }
 
+var runID int
+
+// RunID identifies the current native run (harness packages use it to reset
+// per-run state; under the engine package variables are fresh on every path
+// and RunID is constant).
+func RunID() int { return runID }
+
 func executeWith(f func(), run *Run) (out Outcome) {
+	runID++
 	cur = run
 	defer func() {
 		out.Digest = cur.Digest
